@@ -5,10 +5,16 @@ import sys
 
 # ----------------------------------------------------------------- fmtshim ---
 
+_PLAIN = (int, str, float, bool, type(None), bytes)
+OBJECTS_OPAQUE = [False]
+
+
 def _is_symbolic(x, depth=2):
   from crosshair.core import CrossHairValue  # type: ignore
   if isinstance(x, CrossHairValue):
     return True
+  if OBJECTS_OPAQUE[0] and type(x) not in _PLAIN and type(x) not in (tuple, list, dict):
+    return True   # arbitrary objects: their __str__ may touch symbolic attributes
   if depth and type(x) in (tuple, list):
     return any(_is_symbolic(y, depth - 1) for y in x)
   if depth and type(x) is dict:
@@ -16,7 +22,7 @@ def _is_symbolic(x, depth=2):
   return False
 
 
-def install_fmtshim():
+def install_fmtshim(objects_opaque=False):
   """%-formatting / str.format with a symbolic argument returns '<fmt>'.
 
   CrossHair's own interception of str.__mod__ realises (concretises) symbolic
@@ -25,6 +31,8 @@ def install_fmtshim():
   is not checked (stated in STUBS); with concrete arguments the real operator
   is used.  No-op when CrossHair is not loaded (native replay).
   """
+  if objects_opaque:
+    OBJECTS_OPAQUE[0] = True
   if 'crosshair.core' not in sys.modules:
     return False
   from crosshair import core  # type: ignore
@@ -58,6 +66,40 @@ def install_fmtshim():
   shim_format._verif_shim = True
 
   reg[str.__mod__] = shim_mod
+  orig_repr = reg.get(repr)
+
+  def shim_repr(obj):
+    with NoTracing():
+      sym = _is_symbolic(obj, 1)
+    if sym:
+      return '<repr>'
+    return orig_repr(obj) if orig_repr else repr(obj)
+  reg[repr] = shim_repr
+  # BINARY_OP % on a str is routed by an opcode interceptor through this class,
+  # whose __mod__ runs inside CrossHair's own (untraced) code: route it to the shim.
+  from crosshair import opcode_intercept as _oi  # type: ignore
+  _oi.DeoptimizedPercentFormattingStr.__mod__ = lambda self, other: shim_mod(self.value, other)
+
+  # f-strings, and '%s' % (a, b) with a literal tuple (compiled to FORMAT_VALUE /
+  # BUILD_STRING since CPython 3.11), go through FormatStashingValue.
+  def _opaque(v):
+    with NoTracing():
+      return _is_symbolic(v, 0)
+
+  def fs_str(self):
+    self.formatted = '<fmt>' if _opaque(self.value) else str(self.value)
+    return ''
+
+  def fs_format(self, fmt):
+    self.formatted = '<fmt>' if _opaque(self.value) else format(self.value, fmt)
+    return ''
+
+  def fs_repr(self):
+    self.formatted = '<fmt>' if _opaque(self.value) else repr(self.value)
+    return ''
+  _oi.FormatStashingValue.__str__ = fs_str
+  _oi.FormatStashingValue.__format__ = fs_format
+  _oi.FormatStashingValue.__repr__ = fs_repr
   reg[str.format] = shim_format
   return True
 
